@@ -10,6 +10,8 @@ What is proved:
    never runs out of fuel and returns a topological order listing every variable once;
  * `gen_compareConstraints_is_model` — the comparison the model's pairing heaps use IS the function
    regenerated from constraint.cpp (`Gen/Comparators.compareConstraints`) on the key record of the state;
+ * `static_satisfy_total` — from `Solver(vs, cs)`, `satisfy()` never exhausts the model's fuel (heap loops,
+   the merge loop, the DFS): it returns normally or throws;
  * `static_satisfy_post` / `static_solve_post` — a normal return means the exit scan passed: every
    constraint has slack ≥ ZERO_UPPERBOUND at the reported positions;
  * `static_block_inv` — from `Solver(vs, cs)` on well-formed input, after `satisfy()` or `solve()`
@@ -37,6 +39,7 @@ the live state.
 import AdaptaVerif.Lemmas.VpscStatic
 import AdaptaVerif.Lemmas.VpscStaticOrder
 import AdaptaVerif.Lemmas.VpscStaticRun
+import AdaptaVerif.Lemmas.VpscStaticTotal
 import AdaptaVerif.Lemmas.VpscKktOpt
 import AdaptaVerif.Props.C02Model
 import AdaptaVerif.Gen.Comparators
@@ -136,6 +139,25 @@ theorem static_solve_post (s s' : SSt) (pos : Array Rat) (ret : Bool)
   have hc := (solve_cases s).1 pos ret (by rw [h])
   rw [h] at hc
   exact ⟨hc.2.2, hc.1, (scanStatic_iff _).1 hc.2.1⟩
+
+/-- **static_satisfy_total**: `Solver(vs, cs); satisfy()` on well-formed input always terminates within the
+    model's fuel: the result is a normal return (then `static_satisfy_post` applies) or the exit scan's throw,
+    never "out of fuel" — for every n, m, data, graph (cycles included).  So the theorems about normal
+    returns of `satisfy` are not vacuous for lack of fuel. -/
+theorem static_satisfy_total (vs : Array (Rat × Rat × Rat)) (cs : Array Con)
+    (hv : ∀ c ∈ cs, c.l < vs.size ∧ c.r < vs.size ∧ c.unsat = false) :
+    (∃ s pos ret, (SSt.init vs cs).satisfy = (s, .ok pos ret)) ∨ (∃ s, (SSt.init vs cs).satisfy = (s, .threw)) := by
+  have hb := init_satisfy_total vs cs hv
+  unfold SSt.satisfy at hb ⊢
+  simp only at hb ⊢
+  split
+  · rename_i hbad
+    split at hb
+    · rw [hbad] at hb; cases hb
+    · rename_i hn; exact absurd hbad hn
+  · split
+    · exact Or.inl ⟨_, _, _, rfl⟩
+    · exact Or.inr ⟨_, rfl⟩
 
 /-! ## the block invariant -/
 
